@@ -74,6 +74,9 @@ c.finish(
         "hand-written Gallina model coq/C15/{Content,State}.v of graphics/content/{writer,stream,state,operator}.go, tied "
         "by correspondence in both directions; class table and limits translated (Gen_C15.v); operand formatting is C01's model",
         "OCaml's float_of_string and Go's strconv.ParseFloat as referees for the value of a real token",
+        "the harness's hand-written copy of the specification's allowed-context table (specTable/specRun, the same table as "
+        "State.v op_table, not read from the implementation): every nesting case runs it against the Coq model (cases .S), "
+        "and it judges whether a stream the Builder accepted is a valid sequence (failing input builder-accepts-invalid)",
     ],
     partial=[
         "inline_rt_refuted (F9): without /L, data containing EOL 'EI' delimiter is cut short - witness computed by vm_compute; "
